@@ -44,6 +44,11 @@ for p in "$@"; do
         H*) want=2 ;;
         *) want=1 ;;
     esac
+    # seeded changes that are not detected by decision carry the expected exit code in their meta
+    meta="$(dirname "$p")/meta.json"
+    if [ -f "$meta" ] && grep -q '"expected_exit"' "$meta"; then
+        want="$(grep -o '"expected_exit": *[0-9]*' "$meta" | grep -o '[0-9]*$')"
+    fi
     classes="$(grep -o 'violation class=[a-z-]*' "$OUT/$name.log" | sort | uniq -c | tr '\n' ' ')"
     if [ "$rc" = "$want" ]; then verdict="ok"; else verdict="UNEXPECTED"; fail=1; fi
     echo "$name: exit=$rc want=$want [$verdict] repo-tests=$tests $classes"
